@@ -11,7 +11,7 @@ func NewLine(from, to float64, duration time.Duration) core.Schedule {
 	if from == to {
 		return NewConst(from, duration)
 	}
-	a := (to - from) / float64(duration/1e9)
+	a := (to - from) / (float64(duration) / 1e9)
 	b := from
 	xn := float64(duration) / 1e9
 	n := int64(a*xn*xn/2 + b*xn)
